@@ -13,8 +13,8 @@ import (
 	"path/filepath"
 	"regexp"
 	"sort"
-	"sync"
 	"strings"
+	"sync"
 )
 
 type Seed struct {
@@ -203,14 +203,14 @@ func runPatchSeeds(p *Property, dir, verif string) []SeedResult {
 		go func(i int, ps patchSeed) {
 			defer wg.Done()
 			defer func() { <-sem }()
-			res[i] = runOnePatchSeed(p, dir, ps)
+			res[i] = runOnePatchSeed(p, dir, verif, ps)
 		}(i, ps)
 	}
 	wg.Wait()
 	return res
 }
 
-func runOnePatchSeed(p *Property, dir string, ps patchSeed) SeedResult {
+func runOnePatchSeed(p *Property, dir, verif string, ps patchSeed) SeedResult {
 	var out []SeedResult
 	for range []int{0} {
 		tmp, err := patchedCopy(dir, ps.Path)
@@ -246,7 +246,11 @@ func runOnePatchSeed(p *Property, dir string, ps patchSeed) SeedResult {
 			}
 			out = append(out, SeedResult{ps.Name, "caught", strings.Join(fired, "; ")})
 		} else {
-			out = append(out, SeedResult{ps.Name, "missed", "no violation reported"})
+			if why := documentedMiss(verif, ps.Name); why != "" {
+				out = append(out, SeedResult{ps.Name, "documented-miss", "no violation reported — " + why})
+			} else {
+				out = append(out, SeedResult{ps.Name, "missed", "no violation reported"})
+			}
 		}
 	}
 	return out[0]
@@ -355,4 +359,18 @@ func runOneBenign(p *Property, dir, pf string, old map[string]bool) SeedResult {
 		}
 	}
 	return out[0]
+}
+
+
+// documentedMiss: seeded changes that no rule reports, with the reason (seeded/KNOWN_MISSES.json, DESIGN.md §9).
+func documentedMiss(verif, name string) string {
+	b, err := os.ReadFile(filepath.Join(verif, "seeded", "KNOWN_MISSES.json"))
+	if err != nil {
+		return ""
+	}
+	m := map[string]string{}
+	if json.Unmarshal(b, &m) != nil {
+		return ""
+	}
+	return m[name]
 }
